@@ -14,6 +14,10 @@ inductive Tmp | t | tau
 inductive Ord | xzx | xyx | yxy | yzy | zyz | zxz | xzy | xyz | yxz | yzx | zyx | zxy
   deriving DecidableEq, Repr, Inhabited
 
+/-- kind of one key slot (shape of a module's dispatch key) -/
+inductive KS | az | lon | tmp | ord
+  deriving DecidableEq, Repr, Inhabited
+
 /-- one element of a dispatch key, untyped (used by the list-based `evalL`). -/
 inductive KA | az (c : Az) | lon (c : Lon) | tmp (c : Tmp) | ord (c : Ord)
   deriving DecidableEq, Repr, Inhabited
